@@ -53,7 +53,7 @@ for n, t in (("0", "quick"), ("1", "quick"), ("6", "quick")):
 
 ENC = ("tonic/src/codec/encode.rs", "tonic/codec_encode.rs")
 for (p_, k, l_, m_, t, cap) in ((0, 1, 1, 63, "quick", 900), (3, 1, 2, 63, "quick", 900), (0, 2, 1, 63, "quick", 1500),
-                              (6, 2, 2, 63, "thorough", 3600), (5, 2, 0, 63, "thorough", 3600), (0, 1, 1, 31, "thorough", 3600)):
+                              (6, 2, 2, 63, "thorough", 1500), (5, 2, 0, 63, "thorough", 1500), (0, 1, 1, 31, "thorough", 1500)):
     H("enc_step_p%d_k%d_l%d_m%d" % (p_, k, l_, m_), ["C01", "C06", "C03", "C02"], "core_vb", *ENC, tier=t, cap_s=cap, mem_gb=20,
       obligation="E2/L3/W2: one poll of EncodedBytes::poll_next from an arbitrary state equals the reference batching model: outcome "
                  "(Pending/End/chunk/error code), chunk length = old buffer + reference frames of the messages taken%s; Pending only "
@@ -93,14 +93,14 @@ H("st_h2_reason_map", ["C04"], "transport", *ST, obligation="H6: code_from_h2 ov
 H("st_to_h2_error", ["C04"], "transport", *ST, obligation="H6: to_h2_error: CANCELLED => CANCEL, everything else INTERNAL_ERROR",
   functions=["tonic::Status::to_h2_error"], bounds="all 17 codes")
 for n in (1, 2):
-    H("st_fhm_status_%d" % n, ["C04", "C02"], "core", *ST, cap_s=2400, tier="thorough", optional=True, stubs=[HTTPH],
+    H("st_fhm_status_%d" % n, ["C04", "C02"], "core", *ST, cap_s=1500, tier="thorough", optional=True, stubs=[HTTPH],
       obligation="H4: from_header_map on a real 1-entry map: code == reference parse of the grpc-status bytes, no panic",
       functions=["tonic::Status::from_header_map", "tonic::Code::from_bytes", "http::HeaderMap::{insert,get,clone,remove}"],
       bounds="grpc-status value: all %d-byte header-legal values" % n)
 H("st_fhm_absent", ["C04"], "core", *ST, cap_s=300, stubs=[HTTPH], obligation="H4: no grpc-status => None",
   functions=["tonic::Status::from_header_map"], bounds="empty map")
 for n, t in ((2, "thorough"), (3, "thorough")):
-    H("st_fhm_details_%d" % n, ["C04"], "core", *ST, cap_s=2400, tier=t, optional=True, stubs=[HTTPH],
+    H("st_fhm_details_%d" % n, ["C04"], "core", *ST, cap_s=1500, tier=t, optional=True, stubs=[HTTPH],
       obligation="H4: from_header_map with arbitrary grpc-status-details-bin bytes: never panics; bytes outside the base64 alphabet "
                  "=> UNKNOWN error status (regression check for the fixed F1 panic)",
       functions=["tonic::Status::from_header_map", "tonic::util::base64::STANDARD (padding-indifferent)"],
@@ -108,14 +108,14 @@ for n, t in ((2, "thorough"), (3, "thorough")):
 
 CMP = ("tonic/src/codec/compression.rs", "tonic/codec_compression.rs")
 UW_NAME = [("http::header::name::", 24), ("HdrName", 24), ("parse_hdr", 24)]
-H("cmp_enabled_set", ["C05"], "comp_vb", *CMP, cap_s=3600, mem_gb=24, tier="thorough", optional=True, unwind=6,
+H("cmp_enabled_set", ["C05"], "comp_vb", *CMP, cap_s=1500, mem_gb=24, tier="thorough", optional=True, unwind=6,
   unwindset=UW_MAPS + [("verif_codec_compression", 34), ("http::HeaderValue", 30), ("header::value", 30), ("function memcmp", 30)],
   obligation="N3: EnabledCompressionEncodings after any <=4 enable() calls: is_enabled/is_empty match the history; the accept header "
              "value is exactly the enabled names in order + 'identity'; pop removes the last",
   functions=["EnabledCompressionEncodings::{enable,is_enabled,is_empty,pop,into_accept_encoding_header_value}"],
   bounds="all sequences of <= 4 enable() calls over {gzip,deflate,zstd}")
 for nm, val in (("gzip", "gzip"), ("deflate", "deflate"), ("identity", "identity"), ("sym4", "any 4 header-legal bytes")):
-    H("cmp_enc_hdr_" + nm, ["C05"], "comp_vb", *CMP, cap_s=3600, tier="thorough", optional=True, stubs=[HTTPH],
+    H("cmp_enc_hdr_" + nm, ["C05"], "comp_vb", *CMP, cap_s=1500, tier="thorough", optional=True, stubs=[HTTPH],
       obligation="N2: from_encoding_header on a real 1-entry map: Ok(Some(e)) iff the value names e and e is enabled; identity => Ok(None); "
                  "otherwise Err(UNIMPLEMENTED)",
       functions=["CompressionEncoding::from_encoding_header", "http::HeaderMap::{insert,get}"],
@@ -133,7 +133,7 @@ for nm, val in (("zstd_gzip", "'zstd, gzip'"), ("deflate_id", "'deflate,identity
 GT = ("tonic/src/transport/service/grpc_timeout.rs", "tonic/grpc_timeout.rs")
 for nm, b, t, cap in (("1", "all 1-byte header-legal values", "quick", 600), ("2", "all 2-byte header-legal values", "quick", 900),
                       ("3", "all 3-byte header-legal values", "quick", 1200), ("tail_9", "'999999' + any 3 bytes (9 bytes)", "quick", 1200),
-                      ("tail_10", "'9999999' + any 3 bytes (10 bytes)", "quick", 900), ("4", "all 4-byte header-legal values", "quick", 900), ("5", "all 5-byte header-legal values", "thorough", 3600), ("6", "all 6-byte header-legal values", "thorough", 3600), ("absent", "header absent", "quick", 300)):
+                      ("tail_10", "'9999999' + any 3 bytes (10 bytes)", "quick", 900), ("4", "all 4-byte header-legal values", "quick", 900), ("5", "all 5-byte header-legal values", "thorough", 1500), ("6", "all 6-byte header-legal values", "thorough", 1500), ("absent", "header absent", "quick", 300)):
     H("gt_parse_" + nm, ["C09"], "transport", *GT, tier=t, cap_s=cap, stubs=[HTTPH],
       obligation="G2: try_parse_grpc_timeout on a real 1-entry map == reference grammar (1..8 digits + unit in HMSmun => exact Duration; "
                  "anything else ignored), no panic",
@@ -147,7 +147,7 @@ H("gt_select_min", ["C09"], "transport", *GT, cap_s=1500, mem_gb=28, tier="quick
   outside=["the race between the inner future and the Sleep in ResponseFuture::poll (needs a tokio timer)"])
 
 RC = ("tonic/src/transport/channel/service/reconnect.rs", "tonic/reconnect.rs")
-for k, t, cap in ((2, "quick", 600), (3, "quick", 900), (4, "quick", 900), (5, "quick", 1200), (6, "quick", 1200), (8, "quick", 1200), (12, "thorough", 3600)):
+for k, t, cap in ((2, "quick", 600), (3, "quick", 900), (4, "quick", 900), (5, "quick", 1200), (6, "quick", 1200), (8, "quick", 1200), (12, "thorough", 1500)):
     H("rc_step_k%d" % k, ["C14"], "transport", *RC, tier=t, cap_s=cap, unwindset=UW_MAPS + [("Reconnect<", 2 * k + 4)],
       may_be_uncovered=["recovery script"] if k < 3 else [],
       obligation="Reconnect from every state (Idle/Connecting/Connected x saved error x lazy/eager x has_been_connected), one poll_ready "
@@ -163,7 +163,7 @@ for k, t, cap in ((2, "quick", 600), (3, "quick", 900), (4, "quick", 900), (5, "
 
 ME = ("tonic/src/metadata/encoding.rs", "tonic/metadata_encoding.rs")
 MM = ("tonic/src/metadata/map.rs", "tonic/metadata_map.rs")
-for n, t, cap in ((0, "quick", 300), (1, "thorough", 1800), (2, "thorough", 1800), (3, "thorough", 3600)):
+for n, t, cap in ((0, "quick", 300), (1, "thorough", 1800), (2, "thorough", 1800), (3, "thorough", 1500)):
     H("md_bin_roundtrip_%d" % n, ["C08", "C04"], "core", *ME, tier=t, cap_s=cap,
       obligation="M3/H3: Binary::from_bytes writes unpadded standard base64 (== arithmetic reference); decode of that and of the '='-padded "
                  "spelling both give back the original bytes",
@@ -173,7 +173,7 @@ H("md_key_classification", ["C08"], "core", *ME, cap_s=600,
   obligation="M4: Binary::is_valid_key(k) <=> k ends with '-bin'; Ascii::is_valid_key == !Binary",
   functions=["metadata::encoding::{Binary,Ascii}::is_valid_key"], bounds="all ASCII keys of length 0..=7 (symbolic length)")
 for nm in ("te", "user_agent", "content_type", "grpc_status", "grpc_message", "grpc_message_type"):
-    H("md_sanitize_" + nm, ["C08", "C04"], "core", *MM, cap_s=2400, tier="thorough", optional=True, stubs=[HTTPH],
+    H("md_sanitize_" + nm, ["C08", "C04"], "core", *MM, cap_s=1500, tier="thorough", optional=True, stubs=[HTTPH],
       obligation="M1: into_sanitized_headers on a real 2-entry map {reserved name, user entry} in either order: reserved name absent, user "
                  "entry intact (reserved names taken from the property statement, not from tonic's array)",
       functions=["MetadataMap::into_sanitized_headers", "MetadataMap::from_headers", "http::HeaderMap::{insert,remove,get}"],
@@ -190,16 +190,16 @@ H("web_find_trailers_12", ["C17"], "web_vb", *WEB, cap_s=900,
 H("web_find_trailers_17", ["C17"], "web_vb", *WEB, tier="quick", cap_s=900,
   obligation="U1: find_trailers == independent frame walker", functions=["tonic_web::call::find_trailers"],
   bounds="all buffers of length 0..=17 (symbolic length)")
-H("web_trailers_frame_repeated", ["C16"], "web_vb", *WEB, cap_s=3600, tier="thorough", optional=True, stubs=[HTTPH],
+H("web_trailers_frame_repeated", ["C16"], "web_vb", *WEB, cap_s=1500, tier="thorough", optional=True, stubs=[HTTPH],
   obligation="R2: make_trailers_frame/encode_trailers: flag 0x80, BE32 length, one 'name:value\\r\\n' line per trailer *value* "
              "(repeated names included)",
   functions=["tonic_web::call::make_trailers_frame", "tonic_web::call::encode_trailers"],
   bounds="3 trailers over 2 names (one repeated), 1-byte visible-ASCII symbolic values")
-H("web_decode_trailers_colon_repeat", ["C17"], "web_vb", *WEB, cap_s=3600, mem_gb=24, tier="thorough", optional=True, stubs=[HTTPH],
+H("web_decode_trailers_colon_repeat", ["C17"], "web_vb", *WEB, cap_s=1500, mem_gb=24, tier="thorough", optional=True, stubs=[HTTPH],
   obligation="U2: decode_trailers_frame: every name with its full value: values containing ':' survive, repeated names keep all values",
   functions=["tonic_web::call::decode_trailers_frame"],
   bounds="frame with two lines for the same name; values of 3 and 1 symbolic visible-ASCII bytes (':' and inner ' ' included)")
-for n, k, t, cap in ((0, 1, "thorough", 3600), (3, 1, "thorough", 3600), (6, 1, "thorough", 3600), (4, 2, "thorough", 3600), (7, 2, "thorough", 3600)):
+for n, k, t, cap in ((0, 1, "thorough", 1500), (3, 1, "thorough", 1500), (6, 1, "thorough", 1500), (4, 2, "thorough", 1500), (7, 2, "thorough", 1500)):
     H("web_client_step_n%d_k%d" % (n, k), ["C17"], "web_vb", *WEB, tier=t, cap_s=cap, mem_gb=24, optional=True,
       stubs=[HTTPH, "decode_trailers_frame replaced by a stub that asserts it receives exactly one complete trailers frame and returns an "
              "empty map (the real parser is a separate obligation)"],
@@ -227,7 +227,7 @@ H("ty_retry_delay_conversion", ["C20"], "types", *TY, cap_s=600,
              "prost_types::Duration::try_from"],
   bounds="all std::time::Duration values (u64 seconds x nanos < 1e9)")
 H("ty_retry_delay_none", ["C20"], "types", *TY, cap_s=300, obligation="Y1: absent delay stays absent", functions=["RetryInfo::new"], bounds="None")
-H("ty_retry_info_any_roundtrip", ["C20"], "types", *TY, cap_s=3600, tier="thorough", optional=True,
+H("ty_retry_info_any_roundtrip", ["C20"], "types", *TY, cap_s=1500, tier="thorough", optional=True,
   obligation="Y2 (RetryInfo): detail -> Any (prost encode) -> detail (prost decode) is the identity inside the protobuf range",
   functions=["RetryInfo::into_any", "RetryInfo::from_any_ref", "prost::Message::{encode_to_vec,decode}"],
   bounds="all delays with seconds <= 315576000000, nanos < 1e9")
@@ -275,13 +275,13 @@ for nm, b in (("subsecond_units", "secs < 131_072, any nanos (units n/u/m and th
       bounds="all Durations with " + b,
       outside=["durations above 99_999_999 hours (documented expect() panic)"])
 
-H("st_add_header_msg1", ["C04"], "core_vb", *ST, cap_s=3600, mem_gb=24, tier="thorough", optional=True, stubs=[HTTPH],
+H("st_add_header_msg1", ["C04"], "core_vb", *ST, cap_s=1500, mem_gb=24, tier="thorough", optional=True, stubs=[HTTPH],
   obligation="H2 (write side): Status::to_header_map for any code and any one-character ASCII message: grpc-status = decimal code, "
              "grpc-message = the character itself or %XX exactly for the gRPC escape set (controls, space, \" # % < > ` ? { }), no details header",
   functions=["Status::to_header_map", "Status::add_header", "percent_encoding::percent_encode(ENCODING_SET)"],
   bounds="all 17 codes x all 128 one-byte messages", outside=["messages longer than one byte; the read side (percent_decode) - see P33"])
 
-H("st_add_header_repeated_md", ["C08", "C04", "C02"], "core", *ST, cap_s=3600, tier="thorough", optional=True, stubs=[HTTPH],
+H("st_add_header_repeated_md", ["C08", "C04", "C02"], "core", *ST, cap_s=1500, tier="thorough", optional=True, stubs=[HTTPH],
   obligation="M2/H: Status::to_header_map with metadata holding one key with two values: both values arrive, in order, next to grpc-status",
   functions=["Status::to_header_map", "Status::add_header", "MetadataMap::into_sanitized_headers", "http::HeaderMap::{append,clone,extend,get_all}"],
   bounds="one user key with two 1-byte visible-ASCII symbolic values")
@@ -300,7 +300,7 @@ for nm, b in (("2_unpadded", "'XX'"), ("2_padded", "'XX=='"), ("3_unpadded", "'X
                  "arithmetic reference decoder",
       functions=["metadata::encoding::Binary::decode", "tonic::util::base64::STANDARD (DecodePaddingMode::Indifferent)"],
       bounds="all canonical values of the shape %s over the base64 alphabet" % b)
-H("web_encode_trailers_repeated", ["C16"], "web", *WEB, cap_s=3600, tier="thorough", optional=True, stubs=[HTTPH],
+H("web_encode_trailers_repeated", ["C16"], "web", *WEB, cap_s=1500, tier="thorough", optional=True, stubs=[HTTPH],
   obligation="R2 kernel: encode_trailers lists every value of a repeated trailer name, one 'name:value CRLF' line each, in order",
   functions=["tonic_web::call::encode_trailers", "http::HeaderMap::{append,iter}"],
   bounds="one name with two 1-byte visible-ASCII symbolic values")
@@ -357,18 +357,18 @@ H("web_find_trailers_24", ["C17"], "web_vb", *WEB, tier="quick", cap_s=900,
 
 H("dec_hdr_p27", ["C06", "C05", "C07", "C01"], "core", *DEC, tier="thorough", cap_s=1800,
   obligation="L1/N4/T1a header step, longer payload", functions=DEC_FUNCS, bounds="all 32-byte buffers, all limits")
-H("web_find_trailers_40", ["C17"], "web_vb", *WEB, tier="thorough", cap_s=3600,
+H("web_find_trailers_40", ["C17"], "web_vb", *WEB, tier="thorough", cap_s=1500,
   obligation="U1: find_trailers == independent frame walker", functions=["tonic_web::call::find_trailers"],
   bounds="all buffers of length 0..=40 (symbolic length)")
 
 MK = ("tonic/src/metadata/key.rs", "tonic/metadata_key.rs")
 for n in (3, 5):
-    H("md_key_from_bytes_%d" % n, ["C08"], "core_vb", *MK, cap_s=3600, mem_gb=24, tier="thorough", optional=True,
+    H("md_key_from_bytes_%d" % n, ["C08"], "core_vb", *MK, cap_s=1500, mem_gb=24, tier="thorough", optional=True,
       obligation="M4: MetadataKey::<Ascii>::from_bytes succeeds iff the bytes are a valid header name NOT ending in -bin (case-insensitive), "
                  "MetadataKey::<Binary>::from_bytes iff valid AND ending in -bin; never both",
       functions=["MetadataKey::from_bytes", "ValueEncoding::is_valid_key", "http::HeaderName::from_bytes (as the definition of validity)"],
       bounds="all %d-byte strings" % n, may_be_uncovered=["binary key"] if n < 4 else [])
-H("md_bin_values_equal_padding", ["C08"], "core_vb", *ME, cap_s=3600, mem_gb=24, tier="thorough", optional=True,
+H("md_bin_values_equal_padding", ["C08"], "core_vb", *ME, cap_s=1500, mem_gb=24, tier="thorough", optional=True,
   obligation="M3: Binary::values_equal / equals: the padded and the unpadded spelling of one binary value are equal to each other and to "
              "the decoded bytes",
   functions=["metadata::encoding::Binary::{values_equal,equals,decode}"], bounds="all canonical one-byte values ('XX' vs 'XX==')")
